@@ -6,6 +6,16 @@ ALL = ["C%02d" % i for i in range(1, 21)]
 
 # id -> (level category, engine, technique, level text, level note, design ref)
 CLAIMED = {
+ "C09": ("model_checking", "E2 explicit-state search over the data API",
+         "explicit-state BFS over upsert histories that alternate between choice cases, on the real editor and stores, with an exclusivity invariant and a reference model checked in every state",
+         "Breadth-first search over every sequence (to the depth bound, deduplicated on the directly inspected store content) of upserts that populate one case of a flat, shorthand, nested or in-list choice (each member alone and together), on the reference store, Reflect map and nodeutil.Node map, from JSON and node sources. After every transition: at most one case per choice holds data (computed on the inspected Go data, not through the library), the result equals the reference model (other cases cleared recursively, outside untouched) and the library's own read reports exactly the stored nodes.",
+         "trusted: reference merge model with case clearing, direct inspectors; depth bound in evidence; choices in rpc input not covered",
+         "DESIGN.md section 7 C09"),
+ "C18": ("model_checking", "E2 explicit-state search over the data API",
+         "explicit-state BFS over insert/upsert/replace/delete histories addressed by list keys on the real stores, compared with a reference model after every transition",
+         "Breadth-first search over histories of 21 operations (upsert/insert/delete/replace of entries by key, nested entries, containers, whole lists) from three initial trees on five store layouts (reference store, Reflect and nodeutil.Node over maps, and over slices, plus a no-deduplication full history tree for slice-backed stores because of backing-array aliasing). After every transition the directly inspected store must equal the reference model (exact subtree removal, exact replacement content, no duplicate keys) and Find of every alphabet key must agree with the model in presence and content.",
+         "trusted: reference model, direct inspectors; position of a replaced entry within its list is left open by the statement and compared order-insensitively; struct-backed stores not covered yet",
+         "DESIGN.md section 7 C18"),
  "C03": ("model_checking", "E2 explicit-state search over the data API",
          "explicit-state BFS over edit histories plus exhaustive (S,T) pair enumeration on the real editor, every transition compared with a keyed-deep-merge reference model",
          "All pairs (S,T) of conforming trees with |S|+|T| <= B over two schemas (containers, defaults, nested and compound-key lists, leaf-lists) x 3 strategies x From/Into x root/container/list/entry entry points x {reference store, Reflect map, nodeutil.Node map} x {reference, JSON} sources, plus breadth-first search over operation sequences from the empty store deduplicated on the directly inspected store content; each edit runs on the real library and result, error class (errors.Is conflict/not-found) and untouched paths are compared with the reference merge model.",
